@@ -5,7 +5,7 @@ environment's state vocabulary (TensorDict keys are the environments' public obs
 API).  These tables are the oracle; the repository source is what is checked against them.
 All comparison literals are in *admit form*: `big - small >= 0` (or `> 0` when `strict`).
 """
-from ..envs import Lit
+from ..envs import Lit, tail_vs_head
 
 R = "rl4co/envs/routing/"
 
@@ -149,3 +149,88 @@ ACCUMULATORS = {
     "CVRPEnv": ["used_capacity"], "CVRPTWEnv": ["used_capacity", "current_time"], "SDVRPEnv": ["used_capacity"],
     "MTVRPEnv": ["current_time", "current_route_length", "used_capacity_linehaul", "used_capacity_backhaul"],
 }
+
+# ------------------------------------------------------------------------------------------
+# C06 -- reference rows for check_solution_validity (admit form of the assert conditions).
+# `params_*` are function parameters (the action sequence) on the two sides.
+TOL = 1e-3  # a checker tolerance must sit on the lenient side and be at most this large
+
+_once = Lit("customers-once", "eq", cells=set(), op="==0", why="sorted actions equal 1..n (each customer exactly once)")
+_once.params = {"actions"}
+_perm = Lit("permutation", "eq", cells=set(), op="==0", why="sorted actions equal 0..n-1")
+_perm.params = {"actions"}
+
+CHECK = {
+    "TSPEnv": [_perm],
+    "ATSPEnv": [_perm],
+    "CVRPEnv": [
+        _once,
+        Lit("capacity", "cmp", big={"vehicle_capacity"}, small={"demand"}, params_small={"actions"}, strict=False, const=0,
+            why="running load never above capacity (tolerance on the lenient side)"),
+    ],
+    "SDVRPEnv": [
+        Lit("all-demand-served", "eq", cells={"demand", "vehicle_capacity"}, op="==0", why="all demand delivered with capacity-limited deliveries"),
+    ],
+    "SVRPEnv": [
+        _once,
+        Lit("skill", "cmp", big={"techs"}, small={"skills"}, params_small={"actions"}, strict=False, const=0),
+    ],
+    "OPEnv": [
+        Lit("no-duplicates", "cmp", params_big={"actions"}, params_small={"actions"}, strict=True, conj=False, const=0,
+            why="sorted actions strictly increasing (or depot)"),
+        Lit("length", "cmp", big={"max_length", "locs"}, small={"locs"}, params_small={"actions"}, strict=False, const=0,
+            why="tour length within the limit (max_length was reduced by the return leg and 1e-6 in _reset; both are added back)"),
+    ],
+    "PCTSPEnv": [
+        Lit("no-duplicates", "cmp", params_big={"actions"}, params_small={"actions"}, strict=True, conj=False, const=0),
+        Lit("min-prize", "cmp", big={"real_prize"}, params_big={"actions"}, small=set(), strict=False, conj=False, const=-1,
+            why="collected prize reaches the requirement (or everything was visited)"),
+    ],
+    "PDPEnv": [
+        _perm,
+        Lit("pickup-before-delivery", "cmp", params_big={"actions"}, params_small={"actions"}, strict=True, const=0),
+    ],
+    "MTVRPEnv": [
+        _once,
+        Lit("distance-limit", "cmp", big={"distance_limit"}, small={"locs", "open_route"}, params_small={"actions"}, strict=False, const=0),
+        Lit("time-window", "cmp", big={"time_windows"}, small={"locs", "time_windows", "service_time", "speed"}, params_small={"actions"},
+            strict=False, const=0, why="the clock advances by distance / speed (as in _step and the mask) plus service time"),
+        Lit("cap-linehaul", "cmp", big={"vehicle_capacity"}, small={"demand_linehaul"}, params_small={"actions"}, strict=False, const=0),
+        Lit("cap-backhaul", "cmp", big={"vehicle_capacity"}, small={"demand_backhaul"}, params_small={"actions"}, strict=False, const=0),
+    ],
+    "TSPkoptEnv": [Lit("permutation", "eq", cells={"rec_best"}, op="==0")],
+    "PDPRuinRepairEnv": [
+        Lit("permutation", "eq", cells={"rec_best"}, op="==0"),
+        Lit("pickup-before-delivery", "cmp", big={"rec_best"}, small={"rec_best"}, strict=True, const=0),
+    ],
+}
+for _n in ("PDPEnv", "PDPRuinRepairEnv"):
+    for _l in CHECK[_n]:
+        if _l.name == "pickup-before-delivery":
+            _l.side_check = tail_vs_head
+            _l.why = "position of every pickup (nodes 1..n/2) strictly before its delivery (nodes n/2+1..n)"
+CHECK["CVRPTWEnv"] = CHECK["CVRPEnv"] + [
+    Lit("time-window", "cmp", big={"time_windows"}, small={"locs", "time_windows", "durations"}, params_small={"actions"}, strict=False, const=0,
+        why="service starts within the window; clock = max(arrival, window start) + duration, reset at the depot"),
+]
+CHECK["SPCTSPEnv"] = CHECK["PCTSPEnv"]
+
+CHECK_ENVS = dict(ENVS)
+CHECK_ENVS.pop("MTSPEnv")
+CHECK_ENVS.pop("MDCPDPEnv")
+CHECK_ENVS["TSPkoptEnv"] = (R + "tsp/env.py", "improvement")
+CHECK_ENVS["PDPRuinRepairEnv"] = (R + "pdp/env.py", "improvement")
+
+# C06.c -- sibling pairs (mask literal, checker literal) implementing the same constraint
+SIBLINGS = {
+    "CVRPEnv": [("capacity", "capacity")],
+    "CVRPTWEnv": [("capacity", "capacity"), ("time-window", "time-window")],
+    "SVRPEnv": [("skill", "skill")],
+    "OPEnv": [("length", "length")],
+    "PCTSPEnv": [("min-prize", "min-prize")],
+    "SPCTSPEnv": [("min-prize", "min-prize")],
+    "MTVRPEnv": [("tw-customer", "time-window"), ("distance-limit", "distance-limit"), ("cap-linehaul", "cap-linehaul"), ("cap-backhaul", "cap-backhaul")],
+}
+# instance-data cells (not episode state): a sibling pair must depend on the same ones
+INSTANCE_CELLS = {"locs", "time_windows", "durations", "service_time", "speed", "demand", "demand_linehaul", "demand_backhaul", "vehicle_capacity",
+                  "distance_limit", "open_route", "skills", "techs", "max_length", "real_prize", "prize_required"}
